@@ -518,6 +518,19 @@ package server
 //@   pure
 //@   ensures result == deq(x, y)
 
+// the normal form of a nested entity (toMap, used by toJsonValue for struct values) must be the map that decoding the
+// stored JSON yields, or a version with a nested entity never equals itself: encoding/json leaves out every `omitempty`
+// field of an entity that holds its zero value (id "", internalId 0, recorded 0, deleted false), so toMap must leave it
+// out too, and must keep every other field. The reflect calls are abstracted (tag text and field value are arbitrary),
+// so the obligations hold for every field whatever the struct looks like.
+//@ spec zeroOmit(name string, v iface) bool = (name == "id" && v == box("", "string")) || (name == "internalId" && v == box(0, "uint64")) || (name == "recorded" && v == box(0, "uint64")) || (name == "deleted" && v == box(false, "bool"))
+//@ assumed strings.SplitN
+//@   pure
+//@   ensures foreign(result)
+//@ unit server.toMap
+//@   prop C02 C01
+//@   at call toJsonValue#3 before
+//@     assert [C02,C01:an-omitempty-field-of-an-entity-that-holds-its-zero-value-is-left-out-as-the-stored-json-leaves-it-out] !(len(t) > 1 && t[1] == "omitempty" && zeroOmit(t[0], val))
 //@ unit server.IsEntityEqual
 //@   prop C01 C02
 //@   ensures [C02,C01:identical-content-is-recognised-as-equal-so-an-identical-write-adds-nothing] len(prevJson) == len(thisJson) && prevEntity.IsDeleted == thisEntity.IsDeleted && len(prevEntity.References) == len(thisEntity.References) && len(prevEntity.Properties) == len(thisEntity.Properties)
